@@ -3,6 +3,7 @@
 //! and WITHOUT object cache. After the failed publish the same instance must report the previous
 //! epoch hash, serve a verifying lookup of the previous value, have no transaction open, and a
 //! later publish of the same batch must end in the state of a directory that never saw the failure.
+//! The same is checked with the k-th storage READ of the publish failing, for every k.
 //! Prints "FAIL <what>" lines; exit 1 if any, 0 otherwise.
 use akd::append_only_zks::AzksParallelismConfig;
 use akd::client::lookup_verify;
@@ -15,7 +16,7 @@ use akd::storage::{Database, DbSetState, Storable, StorageManager};
 use akd::{AkdLabel, AkdValue};
 use async_trait::async_trait;
 use std::collections::HashMap;
-use std::sync::atomic::{AtomicBool, Ordering};
+use std::sync::atomic::{AtomicBool, AtomicUsize, Ordering};
 use std::sync::Arc;
 
 type TC = akd::WhatsAppV1Configuration;
@@ -24,6 +25,19 @@ type TC = akd::WhatsAppV1Configuration;
 struct FailDb {
     inner: AsyncInMemoryDatabase,
     fail_commit: Arc<AtomicBool>,
+    /// fail the n-th read (get / batch_get / user-state query) from now on, 0 = never
+    fail_read_at: Arc<AtomicUsize>,
+    reads: Arc<AtomicUsize>,
+}
+
+impl FailDb {
+    fn read(&self) -> Result<(), StorageError> {
+        let n = self.reads.fetch_add(1, Ordering::SeqCst) + 1;
+        if n == self.fail_read_at.load(Ordering::SeqCst) {
+            return Err(StorageError::Connection("injected: read refused".to_string()));
+        }
+        Ok(())
+    }
 }
 
 #[async_trait]
@@ -38,18 +52,23 @@ impl Database for FailDb {
         self.inner.batch_set(records, state).await
     }
     async fn get<St: Storable>(&self, id: &St::StorageKey) -> Result<DbRecord, StorageError> {
+        self.read()?;
         self.inner.get::<St>(id).await
     }
     async fn batch_get<St: Storable>(&self, ids: &[St::StorageKey]) -> Result<Vec<DbRecord>, StorageError> {
+        self.read()?;
         self.inner.batch_get::<St>(ids).await
     }
     async fn get_user_data(&self, username: &AkdLabel) -> Result<KeyData, StorageError> {
+        self.read()?;
         self.inner.get_user_data(username).await
     }
     async fn get_user_state(&self, username: &AkdLabel, flag: ValueStateRetrievalFlag) -> Result<ValueState, StorageError> {
+        self.read()?;
         self.inner.get_user_state(username, flag).await
     }
     async fn get_user_state_versions(&self, usernames: &[AkdLabel], flag: ValueStateRetrievalFlag) -> Result<HashMap<AkdLabel, (u64, AkdValue)>, StorageError> {
+        self.read()?;
         self.inner.get_user_state_versions(usernames, flag).await
     }
 }
@@ -61,7 +80,7 @@ fn batch(n: u64) -> Vec<(AkdLabel, AkdValue)> {
 async fn scenario(with_cache: bool) -> Vec<String> {
     let tag = if with_cache { "with cache" } else { "without cache" };
     let mut fails = Vec::new();
-    let db = FailDb { inner: AsyncInMemoryDatabase::new(), fail_commit: Arc::new(AtomicBool::new(false)) };
+    let db = FailDb { inner: AsyncInMemoryDatabase::new(), fail_commit: Arc::new(AtomicBool::new(false)), fail_read_at: Arc::new(AtomicUsize::new(0)), reads: Arc::new(AtomicUsize::new(0)) };
     let storage = if with_cache { StorageManager::new(db.clone(), None, None, None) } else { StorageManager::new_no_cache(db.clone()) };
     let akd = Directory::<TC, _, _>::new(storage.clone(), HardCodedAkdVRF {}, AzksParallelismConfig::default()).await.unwrap();
     akd.publish(batch(1)).await.unwrap();
@@ -106,10 +125,65 @@ async fn scenario(with_cache: bool) -> Vec<String> {
     fails
 }
 
+/// the k-th storage read of a publish fails, for every k the publish makes
+async fn read_failures(with_cache: bool) -> Vec<String> {
+    let tag = if with_cache { "with cache" } else { "without cache" };
+    let mut fails = Vec::new();
+    // how many reads does the publish make?
+    let mut k = 1usize;
+    loop {
+        let db = FailDb { inner: AsyncInMemoryDatabase::new(), fail_commit: Arc::new(AtomicBool::new(false)), fail_read_at: Arc::new(AtomicUsize::new(0)), reads: Arc::new(AtomicUsize::new(0)) };
+        let storage = if with_cache { StorageManager::new(db.clone(), None, None, None) } else { StorageManager::new_no_cache(db.clone()) };
+        let akd = Directory::<TC, _, _>::new(storage.clone(), HardCodedAkdVRF {}, AzksParallelismConfig::default()).await.unwrap();
+        akd.publish(batch(1)).await.unwrap();
+        let before = akd.get_epoch_hash().await.unwrap();
+        db.reads.store(0, Ordering::SeqCst);
+        db.fail_read_at.store(k, Ordering::SeqCst);
+        let r = akd.publish(batch(2)).await;
+        let made = db.reads.load(Ordering::SeqCst);
+        db.fail_read_at.store(0, Ordering::SeqCst);
+        if made < k {
+            break; // the publish makes fewer than k reads: all read positions explored
+        }
+        if r.is_ok() {
+            // a read whose failure is tolerated (e.g. NotFound-equivalent handling) - then the publish simply succeeded
+            k += 1;
+            continue;
+        }
+        if storage.is_transaction_active() {
+            fails.push(format!("{tag}: read {k} of the publish fails: a transaction is left open"));
+        }
+        match akd.get_epoch_hash().await {
+            Ok(eh) if eh.0 == before.0 && eh.1 == before.1 => {}
+            Ok(eh) => fails.push(format!("{tag}: read {k} of the publish fails: the same instance afterwards reports epoch {} instead of {}", eh.0, before.0)),
+            Err(e) => fails.push(format!("{tag}: read {k} of the publish fails: get_epoch_hash fails afterwards: {e:?}")),
+        }
+        match akd.publish(batch(2)).await {
+            Err(e) => fails.push(format!("{tag}: read {k} of the publish fails: the publish after the failed one fails: {e:?}")),
+            Ok(after) => {
+                let control = Directory::<TC, _, _>::new(StorageManager::new_no_cache(AsyncInMemoryDatabase::new()), HardCodedAkdVRF {}, AzksParallelismConfig::default()).await.unwrap();
+                control.publish(batch(1)).await.unwrap();
+                let want = control.publish(batch(2)).await.unwrap();
+                if after.0 != want.0 || after.1 != want.1 {
+                    fails.push(format!("{tag}: read {k} of the publish fails: the later publish ends at epoch {} root {:02x}{:02x}.., expected epoch {} root {:02x}{:02x}..", after.0, after.1[0], after.1[1], want.0, want.1[0], want.1[1]));
+                }
+            }
+        }
+        k += 1;
+        if k > 400 {
+            break;
+        }
+    }
+    println!("native_commitfail: {tag}: {} read positions of a publish explored", k - 1);
+    fails
+}
+
 fn main() {
     let rt = tokio::runtime::Builder::new_current_thread().enable_time().build().unwrap();
     let mut fails = rt.block_on(scenario(false));
     fails.extend(rt.block_on(scenario(true)));
+    fails.extend(rt.block_on(read_failures(false)));
+    fails.extend(rt.block_on(read_failures(true)));
     for f in &fails {
         println!("FAIL {f}");
     }
